@@ -155,6 +155,7 @@ func (f *frame) instr(ins ssa.Instruction) {
 		mt := ins.Map.Type().Underlying().(*types.Map)
 		m := f.val(ins.Map)
 		f.safetyOb("nil-map-write", ins.Pos(), "index", Not(Eq(m, TNull)))
+		f.frameCheckMap(m, ins.Pos())
 		c, d := vc.mapNames(mt)
 		ks, vs := vc.info(mt.Key()).sort, vc.info(mt.Elem()).sort
 		k, v := f.val(ins.Key), f.val(ins.Value)
@@ -287,6 +288,12 @@ func (f *frame) unop(ins *ssa.UnOp) {
 	switch ins.Op {
 	case token.MUL:
 		f.nilCheck(ins.X, ins.Pos())
+		if g := globalOf(ins.X); g != nil && vc.prog.Frozen[g] && !isInitFunc(vc.fn) {
+			// frozen global: its value is the one the package initialiser left (entry state)
+			vc.usedGlobals[g] = true
+			f.setVal(ins, vc.load(State{}, f.val(ins.X), ins.Type()))
+			return
+		}
 		f.setVal(ins, vc.load(f.cur, f.val(ins.X), ins.Type()))
 	case token.NOT:
 		f.setVal(ins, Not(f.val(ins.X)))
@@ -330,7 +337,7 @@ func (f *frame) binop(ins *ssa.BinOp) {
 			vc.unsupp("comparison of different sorts %s / %s", x.Sort, y.Sort)
 			eq = vc.freshConst("cmp", SBool)
 		} else {
-			eq = Eq(x, y)
+			eq = vc.eqVal(x, y)
 		}
 		if ins.Op == token.NEQ {
 			eq = Not(eq)
@@ -391,9 +398,7 @@ func (f *frame) binop(ins *ssa.BinOp) {
 				if n >= 0 && n < 63 {
 					p := IntLit(int64(1) << uint(n))
 					if ins.Op == token.SHL {
-						r := App(SInt, "*", x, p)
-						f.overflowOb(ins, r, rt)
-						f.setVal(ins, r)
+						f.setVal(ins, f.wrapInt(App(SInt, "*", x, p), rt))
 					} else {
 						f.setVal(ins, App(SInt, "div", x, p))
 					}
@@ -411,7 +416,7 @@ func (f *frame) binop(ins *ssa.BinOp) {
 	if vc.mode == ModeInt {
 		switch ins.Op {
 		case token.ADD, token.SUB, token.MUL:
-			f.overflowOb(ins, r, rt)
+			r = f.wrapInt(r, rt)
 		case token.AND, token.OR, token.XOR, token.AND_NOT:
 			f.setVal(ins, r)
 			vc.assume(vc.typeInv(f.vals[ins], ins.Type()))
@@ -421,9 +426,14 @@ func (f *frame) binop(ins *ssa.BinOp) {
 	f.setVal(ins, r)
 }
 
-func (f *frame) overflowOb(ins *ssa.BinOp, r Term, rt *typeInfo) {
+// wrapInt: Go integer arithmetic wraps around (defined behaviour, no panic); in
+// int mode the mathematical result is folded back into the type's range, so the
+// encoding is exact and nothing is "treated as mathematical".
+func (f *frame) wrapInt(r Term, rt *typeInfo) Term {
 	vc := f.vc
-	f.safetyOb("overflow", ins.Pos(), "arith", vc.inRange(r, rt.bits, rt.signed))
+	r = vc.define(f.prefix+"_ar", r)
+	// convInt from an unbounded source: reuse the wrap logic with a wider "from" range
+	return vc.convInt(r, 200, true, rt.bits, rt.signed)
 }
 
 func constantInt(c *ssa.Const) (int64, bool) {
@@ -648,4 +658,41 @@ func (f *frame) next(ins *ssa.Next) {
 		fields = append(fields, t)
 	}
 	f.setVal(ins, vc.mkTuple(tup, fields))
+}
+
+// globalOf: the package-level variable an address is derived from (nil if none).
+func globalOf(v ssa.Value) *ssa.Global {
+	for i := 0; i < 8; i++ {
+		switch x := v.(type) {
+		case *ssa.Global:
+			return x
+		case *ssa.FieldAddr:
+			v = x.X
+		case *ssa.IndexAddr:
+			if _, ok := x.X.Type().Underlying().(*types.Pointer); ok {
+				v = x.X
+			} else {
+				return nil
+			}
+		default:
+			return nil
+		}
+	}
+	return nil
+}
+
+// eqVal: equality of two values; comparison with the empty string is a length test
+// (strings are an opaque sort: this is the one extensionality fact needed).
+func (vc *VC) eqVal(x, y Term) Term {
+	if x.Sort == SStr {
+		if e, ok := vc.strLits[""]; ok {
+			if x.S == e.S {
+				return Eq(vc.strLen(y), vc.idxLit(0))
+			}
+			if y.S == e.S {
+				return Eq(vc.strLen(x), vc.idxLit(0))
+			}
+		}
+	}
+	return Eq(x, y)
 }
